@@ -247,8 +247,12 @@ CHOICE_decode_oer(const asn_codec_ctx_t *opt_codec_ctx,
                                   elm->encoding_constraints.oer_constraints,
                                   memb_ptr2, ptr, size);
             if(got < 0) ASN__DECODE_FAILED;
-            if(got == 0) ASN__DECODE_STARVED;
-            rval.code = RC_OK;
+            /*
+             * got == 0: the open type is not complete yet. The tag
+             * (consumed_myself) is accounted for below; phase 1 resumes
+             * at the length determinant of the open type.
+             */
+            rval.code = got ? RC_OK : RC_WMORE;
             rval.consumed = got;
         } else {
             rval = elm->type->op->oer_decoder(
